@@ -26,7 +26,7 @@ RULE = (
     "that tie on their offset are split in every process"
 )
 ASSUMPTIONS = [
-    "modules with one section: gtirb_layout.layout_module (a dependency, not part of this repository) iterates module.sections, a set of id-hashed nodes, so with several sections the assigned addresses depend on the allocation pattern; recorded as a finding of the dependency in DESIGN.md, not judged here",
+    "gtirb_layout.layout_module (a dependency, not part of this repository) iterates module.sections, a set of id-hashed nodes, so with several sections the start address each section gets depends on the allocation pattern; recorded as a finding of the dependency in DESIGN.md: addresses are compared relative to the start of their section, everything else exactly",
     "allocation noise changes id()-based hashes only statistically; a nondeterminism that needs a rarer hash collision pattern than N processes produce is not seen",
 ]
 TRUSTED = ["harness/c11_worker.py, harness/emodify.py, harness/irdump.py (canonical form)"]
